@@ -33,6 +33,7 @@ def Ring.add (r : Ring) (seq : Nat) : Ring :=
     else if diff < 32768 then
       let s1 := clearRange r.size r.slots (r.highest + 1) (diff - 1)
       { r with slots := s1.setIfInBounds (seq % r.size) true, highest := seq }
+    else if (r.highest + 65536 - seq) % 65536 ≥ r.size then r      -- too old: dropped (fix of F-04)
     else { r with slots := r.slots.setIfInBounds (seq % r.size) true }
 
 def Ring.used (r : Ring) : Nat := r.slots.toList.countP (· = true)
